@@ -114,6 +114,10 @@ type Spec struct {
 	// event / final-state rules); it returns a diagnosis or "".
 	Extra func(p *Path, out string, class string, e *Env, ab func(string) string) string
 	// MinPaths guards against vacuity.
+	// Ignore: atoms with one of these prefixes are bookkeeping conditions
+	// (loop counters of symbolic loops, infallible entropy reads) that the
+	// specification does not constrain.
+	Ignore    []string
 	MinPaths  int
 	MaxVisits int
 	SymLoops  bool
@@ -191,7 +195,15 @@ func Check(rule *report.Rule, cfg *Config, sp *Spec) *Result {
 			}
 			v, ok := sp.Vars[a]
 			if !ok {
-				unknown = append(unknown, a)
+				ign := false
+				for _, pfx := range sp.Ignore {
+					if strings.HasPrefix(a, pfx) {
+						ign = true
+					}
+				}
+				if !ign {
+					unknown = append(unknown, a)
+				}
 				continue
 			}
 			neg := strings.HasPrefix(v, "!")
